@@ -69,6 +69,9 @@ func pkgPattern(pkgPath string) string {
 	if pkgPath == modPath {
 		return "."
 	}
+	if !strings.HasPrefix(pkgPath, modPath+"/") {
+		return pkgPath // standard library or dependency
+	}
 	return "./" + strings.TrimPrefix(pkgPath, modPath+"/")
 }
 
